@@ -10,8 +10,13 @@ import StraxModel.Lemmas.LineageJson
   printer itself is proved injective (`json_text_injective`).
 
   All theorems below are about `Rules.fixed`, the rules of the code as it is now; the
-  `…_counterexample_…` theorems show by evaluation that each of the four earlier rules breaks the
-  corresponding statement.
+  `…_counterexample_…` theorems show by evaluation that each of the five earlier rules (cache not
+  reset on re-registration, merged context hash, sets in iteration order, fuzzy `==` on dicts,
+  fuzzy `==` on hashablized dicts) breaks the corresponding statement.  Naming: the model's scope
+  below holds for EVERY theorem and is stated once, here and in `ASSUMPTIONS` of checks/props/c02.py;
+  a theorem with a further hypothesis that cuts into the property's quantifier ends in `_partial`
+  (one: `tracked_option_change_changes_key_partial`); evaluated witnesses end in
+  `_counterexample…` / `_example` / `_witness`.
 
   Scope of the model (hence of every theorem here; restrictions that cut into the property's
   quantifier are named in the docstrings): plugin graphs with single- and multi-output plugins,
@@ -66,7 +71,7 @@ theorem key_config_perm (H : String → K) {r : Registry} {c c' : Config} (hp : 
   obtain ⟨L', h1, h2⟩ := lineage_config_perm hp hn h
   exact ⟨L', h1, by unfold keyOf; rw [h2]⟩
 
-example : NodupKeys ([("b", Val.int 1), ("a", .dict [("y", .int 2), ("x", .int 3)])] : Config) := by decide
+theorem nodupKeys_example : NodupKeys ([("b", Val.int 1), ("a", .dict [("y", .int 2), ("x", .int 3)])] : Config) := by decide
 
 /-! ## which keys change -/
 
@@ -144,12 +149,15 @@ theorem tracked_change_hits_descendants {H : String → K} (hH : Function.Inject
     keyOf H L ≠ keyOf H L' :=
   (key_changes_iff hH hw hw' h h').mpr fun hh => hdiff (hh.2 a ha)
 
-/-- **A tracked option shows.**  If the plugin behind lineage key `a` takes `o` as a tracked option
-(for a child plugin: `o` is not an option it overwrites in its parent, nor the name of a base
-class) and the two configs give `o` values that hash differently, then every data type that has
+/-- **A tracked option shows** (`_partial`: for a child plugin the hypotheses exclude an option the
+child overwrites in its parent — by design that one is represented by the child option — and an
+option *named like a base class*, whose lineage slot is taken by the base class version:
+`tracked_option_named_like_base_counterexample`).  If the plugin behind lineage key `a` takes `o`
+as a tracked option (for a child plugin: `o` is not an option it overwrites in its parent, nor the
+name of a base class) and the two configs give `o` values that hash differently, then every data type that has
 `a` among its lineage keys — the outputs of that plugin and all their descendants — gets a
 different key. -/
-theorem tracked_option_change_changes_key {H : String → K} (hH : Function.Injective H) {r : Registry} (hw : r.WF)
+theorem tracked_option_change_changes_key_partial {H : String → K} (hH : Function.Injective H) {r : Registry} (hw : r.WF)
     {c c' : Config} (hc : NodupKeys c) (hc' : NodupKeys c') {n n' : Nat} {d a o : String} {L L' : Lineage}
     {cls : PluginClass} {v v' : Val}
     (h : lineage r c n d = .ok L) (h' : lineage r c' n' d = .ok L') (ha : a ∈ ancestors r n d)
@@ -203,6 +211,14 @@ theorem tracked_option_change_changes_key {H : String → K} (hH : Function.Inje
         lookup_withDefaults, lookup_withDefaults, hv, hv'] at this
       simp at this
       exact hne this
+
+/-- The corner `tracked_option_change_changes_key_partial` excludes is real: a child plugin's tracked
+option called like its base class never reaches the lineage (`configs[parent.__name__] =
+parent.version()` overwrites it), so changing it changes no key. -/
+theorem tracked_option_named_like_base_counterexample :
+    let cls : PluginClass := ⟨"C", "1", "cc", [], [⟨"Par", some (.int 1), true, none⟩], true, [("Par", "0.1")], "blosc", 80, []⟩
+    (lineage [cls] [("Par", .int 1)] 2 "cc").toOption = some [("cc", ⟨"C", "1", [("Par", .str "0.1")]⟩)] ∧
+      (lineage [cls] [("Par", .int 2)] 2 "cc").toOption = some [("cc", ⟨"C", "1", [("Par", .str "0.1")]⟩)] := by decide
 
 /-- **Version and providing class show.**  If the plugins behind lineage key `a` in the two
 registries differ in version or in class name, every data type with `a` among its lineage keys
@@ -326,7 +342,7 @@ theorem lineage_ok {r : Registry} (hw : r.WF) {c : Config} (hc : NodupKeys c) {n
       · simp at hl
   · simp at hl
 
-example : LineageOK [("aa", ⟨"A", "1", [("x", .int 1), ("y", .seq true [.int 1, .int 2])]⟩),
+theorem lineageOK_example : LineageOK [("aa", ⟨"A", "1", [("x", .int 1), ("y", .seq true [.int 1, .int 2])]⟩),
     ("bb", ⟨"B", "2", []⟩)] := by decide
 
 /-- `_matches` in fuzzy mode accepts a stored lineage exactly when, outside the data types named in
@@ -440,7 +456,7 @@ theorem no_stale_read {H : String → K} (hH : Function.Injective H) (ops : List
 /-! ### non-vacuity: a concrete history inside the hypotheses -/
 
 -- the driver's instance of the abstract hash: the identity on the JSON text
-example : Function.Injective (fun s : String => s) := fun _ _ h => h
+theorem injective_hash_example : Function.Injective (fun s : String => s) := fun _ _ h => h
 
 def clsP (default : Int) : PluginClass :=
   ⟨"P", "1", "aa", [], [⟨"x", some (.int default), true, none⟩], false, [], "blosc", 80, []⟩
@@ -452,10 +468,10 @@ def d4History : List Op :=
   [⟨false, .register (clsP 1)⟩, ⟨false, .make "aa"⟩, ⟨false, .register (clsP 2)⟩]
 
 -- the fresh context computes the data, and the fixed rules return exactly that
-example :
+theorem no_stale_read_fresh_witness :
     (step Rules.fixed id (freshState [clsP 2] []) ⟨false, .get "aa"⟩).1 =
       .data [("aa", ⟨"P", "1", [("x", .int 2)]⟩)] false := by decide
-example :
+theorem no_stale_read_d4_witness :
     (step Rules.fixed id (run Rules.fixed id State.init d4History).2 ⟨false, .get "aa"⟩).1 =
       .data [("aa", ⟨"P", "1", [("x", .int 2)]⟩)] false := by decide
 
@@ -475,17 +491,17 @@ def clsM (default : Int) : PluginClass :=
   ⟨"M", "1", "bb", [], [⟨"mx", some (.int default), true, none⟩], false, [], "blosc", 80, ["aa"]⟩
 def clsQa : PluginClass := ⟨"Qa", "1", "qq", ["aa"], [], false, [], "blosc", 80, []⟩
 
-example : Registry.WF [clsM 1, clsQa] := by decide
+theorem registry_wf_example : Registry.WF [clsM 1, clsQa] := by decide
 
 -- multi-output version of the D4 history: register M(aa,bb) default 1; make qq(aa); re-register with default 2
-example :
+theorem no_stale_read_multi_output_witness :
     (step Rules.fixed id (run Rules.fixed id State.init
         [⟨false, .register (clsM 1)⟩, ⟨false, .register clsQa⟩, ⟨false, .make "qq"⟩, ⟨false, .register (clsM 2)⟩]).2
       ⟨false, .get "qq"⟩).1 =
       .data [("qq", ⟨"Qa", "1", []⟩), ("bb", ⟨"M", "1", [("mx", .int 2)]⟩)] false := by decide
 
 -- a class providing (bb, cc) takes `bb` over: `aa` is deregistered with it
-example : Registry.lookup (Registry.set [clsM 1, clsQa]
+theorem register_deregisters_overlap_example : Registry.lookup (Registry.set [clsM 1, clsQa]
     ⟨"N", "1", "cc", [], [], false, [], "blosc", 80, ["bb"]⟩) "aa" = none := by decide
 
 /-- class of data type `aa` taking a tracked option that is itself called `aa` -/
